@@ -163,7 +163,7 @@ def check_first_order(sc):
 
 def low_albedo_scene(rng, em="iba", ms="exponential"):
     sc = scenes.random_scene(rng, nlayer=1, lossless=False, microstructure=ms, atmosphere=False, substrate=None,
-                             thick=(0.05, 100.0), frequency=float(rng.choice([5e9, 10e9, 13e9])))
+                             thick=(0.05, 100.0), frequency=float(rng.choice([0.435e9, 1.4e9, 5e9, 10e9, 13e9])))
     sc["density"] = [round(float(rng.uniform(100, 500)), 1)]
     if ms == "exponential":
         sc["micro"]["corr_length"] = [round(float(rng.uniform(2e-5, 6e-5)), 7)]
@@ -183,6 +183,7 @@ def oracle(ctx, hints, effort):
         sc = scenes.random_scene(rng, lossless=False, microstructure=ms, max_layers=4, atmosphere=False, active=True, thick=(0.05, 3.0))
         sc["emmodel"], sc["nmax"] = em, int(rng.choice([16, 32]))
         thetas = sorted({round(float(t), 2) for t in rng.uniform(5, 60, 3)})
+        thetas = [thetas[1], thetas[0]] + thetas[2:] if len(thetas) == 3 else thetas      # not in increasing order
         try:
             evals += 1
             r = check_reciprocity(sc, thetas)
@@ -194,8 +195,14 @@ def oracle(ctx, hints, effort):
         except Exception as e:  # noqa
             from smrt.core.error import SMRTError
             if not isinstance(e, SMRTError):
-                raise
+                key = f"exception:{type(e).__name__}"
+                findings.setdefault(key, Finding(key, f"active run at incidence angles {thetas} raises {type(e).__name__}: {str(e)[:120]}",
+                                                 {"kind": "reciprocity", "scene": sc, "thetas": thetas}, type(e).__name__, "values (or SMRTError)"))
         sc2 = low_albedo_scene(rng, *(("iba", "exponential") if it % 2 == 0 else ("rayleigh", "sticky_hard_spheres")))
+        if it == 0:      # a P-band radar over ordinary firn: scattering coefficients of a few 1e-9 1/m are small, not zero
+            sc2["frequency"] = 0.435e9
+            sc2["micro"]["corr_length"] = [1e-4]
+            sc2["thickness"] = [round(float(rng.uniform(5, 50)), 2)]
         try:
             evals += 2
             r = check_first_order(sc2)
@@ -207,10 +214,18 @@ def oracle(ctx, hints, effort):
         except Exception as e:  # noqa  (the known "almost diagonal matrix" failure at high m_max is a loud SMRTError, C08)
             from smrt.core.error import SMRTError
             if not isinstance(e, SMRTError):
-                raise
+                key = f"exception:{type(e).__name__}"
+                findings.setdefault(key, Finding(key, f"active run of a low-albedo layer raises {type(e).__name__}: {str(e)[:120]}",
+                                                 {"kind": "first-order", "scene": sc2}, type(e).__name__, "values (or SMRTError)"))
     return list(findings.values()), evals
 
 
 def replay(inp, rp=None):
-    r = check_reciprocity(inp["scene"], inp["thetas"]) if inp["kind"] == "reciprocity" else check_first_order(inp["scene"])
+    try:
+        r = check_reciprocity(inp["scene"], inp["thetas"]) if inp["kind"] == "reciprocity" else check_first_order(inp["scene"])
+    except Exception as e:  # noqa
+        from smrt.core.error import SMRTError
+        if isinstance(e, (SMRTError, AssertionError)):
+            return None
+        return Finding("exception:" + type(e).__name__, str(e)[:200], inp, type(e).__name__, "values (or SMRTError)")
     return Finding("?", r[0], inp, r[1], r[2]) if r else None
